@@ -12,4 +12,7 @@ for p in ("dev", "release"):
     print("MIR", p, len(m.funcs), "bodies", "%.1fs" % m.dump_s)
 print("replay binaries:", replay.build())
 print("lexer reference:", replay.build_lex("dev"))
+from mirsym import kanicross
+r, info = kanicross.run(["value.rs"], ["verdict_rules"], tag="setup")
+print("kani warm-up:", {k: v["status"] for k, v in r.items()}, info.get("wall_s"), "s")
 PY
